@@ -42,6 +42,7 @@ CHECKS = [
         "DESIGN.md 3/C03"),
     chk("C04", "model_checking",
         "Every G1 program (all raw instruction lists up to the tier's line bound, incl. dead code, back edges, "
+        "plus G1D: every one/two-instruction unreachable segment between live code, and G1S: every control-flow shape of a subroutine body of <= 5/7 tokens; "
         "branch/call last, branch to next line) is parsed; E1 explores every execution of the reference AVM over the "
         "region quotient of its inputs and each concrete transition is checked to be an edge of tealer's graph (parse "
         "level and function level); block partition, single entry/exit, mirrored next/prev, no block outside the graph "
@@ -51,7 +52,7 @@ CHECKS = [
         "DESIGN.md 3/C04"),
     chk("C05", "model_checking",
         "Every G1 program with a callsub (up to the tier's line bound) plus every arrangement of 4-6 one-line subroutines "
-        "(nested, shared, recursive, unreachable call sites, before/after main) is parsed and analysed; subroutine names, "
+        "(nested, shared, recursive, unreachable call sites, before/after main), the G1D dead-code and G1S subroutine-body-shape spaces, is parsed and analysed; subroutine names, "
         "block sets, exits, called subroutine and return point of every call site, caller/return-point tables at contract "
         "and function level, and the edges of the exported call-graph DOT file are compared with an independent reference graph.",
         "Trusted: reference graph mc/refcfg.py. Caller tables / call graph only where bodies are entered through callsub only.",
@@ -84,7 +85,8 @@ CHECKS = [
     chk("C09", "model_checking",
         "Layered G2 spaces over Fee atoms (6 operators x both orders x constants incl. 272000/272001): E1 checks fee <= reported "
         "bound on every block of every accepting run; O2 checks that a bound <= 272000 is credited only when no accepting abstract "
-        "path admits a larger fee, and that programs with a single Fee atom get exactly the implied bound.",
+        "path admits a larger fee, that programs with a single Fee atom get exactly the implied bound, and - on every program, "
+        "also with comparands the tool cannot evaluate - that no block on an accepting path that never reads Fee is credited with a bound.",
         "Trusted: reference AVM, O2 evaluator. Fee representatives c-1,c,c+1,0,272000,272001,2^64-1.",
         "explicit-state exploration (concrete AVM over fee region representatives; abstract per-value reachability)",
         "DESIGN.md 3/C09"),
@@ -179,7 +181,7 @@ CHECKS = [
         "graph of the reference (intra edges, callsub -> entry, retsub -> return point, no callsub -> return-point edge), one call box "
         "per call site, RED nodes = exactly the path's blocks, GroupIndex/GroupSize annotations decode to the computed sets, count = "
         "listed paths, success <=> no error, and filter_paths removes exactly the paths whose short notation re.search-matches, for "
-        "patterns derived from every reported path.",
+        "patterns derived from every reported path; the number-list abbreviation of the transaction-context printer is decoded back on all 2^17 subsets of 0..16.",
         "Trusted: reference graph and the readers in mc/checks/c18.py. The call-graph export is covered by C05.",
         "output conformance over an exhaustively enumerated program space: every exported artefact parsed back and compared with the reference model",
         "DESIGN.md 3/C18"),
@@ -193,7 +195,7 @@ CHECKS = [
         "exhaustive enumeration of the opcode x field x version table and of class-representative pairs against an independent specification table",
         "DESIGN.md 3/C19"),
     chk("C20", "model_checking",
-        "All G1 programs (joins, loops, dead code, calls) x every label, `*` and a missing label x every window of 1-4 source lines and "
+        "All G1 programs (joins, loops, dead code, calls) and G1L ladder programs (5 labelled segments, every forward jump pattern; back edges in thorough) x every label, `*` and a missing label x every window of 1-4 source lines and "
         "every one-line alteration of it (present, absent, overlapping, block-spanning, unreachable): match_regex must return exactly "
         "the occurrences reachable from the label on the reference instruction graph (each listed in order, along single-successor "
         "chains), and the covered set must lie within, and contain all unmatched instructions of, the paths from the label to a match.",
